@@ -219,6 +219,51 @@ def check_point(ctx, case: Case, job, dump, named):
         ctx.count("mip_point", "satisfies the model's rows")
 
 
+def adjudicate(box, case: Case, W, stable, exhaustive, searched):
+    """A search verdict contradicts the exact oracle, or the returned price system is invalid: whose doing is it?  The call is
+    repeated in the capture worker.  When the program the library hands to the solver IS the program of PriceMIP (compared
+    row by row, and proved sound and complete for these sizes) the only party left is the solver: its point violates the
+    program it was given, or it calls a feasible program infeasible -> ("solver_fault", why).  Anything else - another
+    program, or a result that is not the solver's point read off as the code documents - is the library's -> ("library", why)."""
+    job = {"op": "capture", "case": case.to_json(), "W": None if searched else W, "stable": stable, "exhaustive": exhaustive,
+           "solve": True, "want_result": True}
+    line = model_line(case, job["W"], stable, exhaustive)
+    answer = core.run_driver([line])[0]
+    dump = box.call(job)
+    if dump is None:
+        return "solver_fault", "the solver crashed or hung when the call was repeated"
+    if "error" in dump:
+        return "library", "priceable raised " + dump["error"]
+    ivs, irows = canon_impl(case, dump)
+    mvs, mrows, named = canon_model(answer)
+    if dump.get("nopt") != 1 or dump["obj"] or ivs != mvs or irows != mrows:
+        return "library", "the program handed to the solver is not the program of PriceMIP"
+    if dump.get("status") in ("OPTIMAL", "FEASIBLE") and dump.get("point") is not None:
+        names = var_names(case, len(case.ballots))
+        point = {names.get(v, "?" + v): F(x) for v, x in dump["point"].items()}
+        worst, worst_name = F(0), None
+        for name, row in named:
+            d = row_violation(row, point)
+            if d > worst:
+                worst, worst_name = d, name
+        for v, x in point.items():
+            d = max(-x, F(0))
+            if v.startswith("x."):
+                d = max(d, min(abs(x), abs(x - 1)))
+            if d > worst:
+                worst, worst_name = d, "domain of " + v
+        if worst > TOL:
+            return "solver_fault", f"the solver's point violates the program it was given ({worst_name} by {float(worst):.2e})"
+        raw, res = dump["point"], dump.get("result") or {}
+        want_alloc = sorted(c for c in case.names if raw.get("x_" + c, 0.0) >= 0.99)
+        want_pf = [{c: raw.get(f"p_{i}_{c}", 0.0) for c in case.names if raw.get(f"p_{i}_{c}", 0.0) > 1e-8} for i in range(len(case.ballots))]
+        got_pf = [{c: v for c, v in d.items() if v != 0.0} for d in (res.get("pf") or [])]
+        if res.get("alloc") != want_alloc or res.get("b") != raw.get("voter_budget") or got_pf != want_pf:
+            return "library", "the returned result is not the solver's point read off as documented (x >= 0.99, payments > 1e-8)"
+        return "library", "the solver's point satisfies the proved program, yet the verdict contradicts the oracle"
+    return "solver_fault", f"the solver answers {dump.get('status')} for a program that is the proved one (the exact oracle disagrees with the solver, not with the library)"
+
+
 def witness_line(case: Case, W, stable, exhaustive, b, pf):
     """the point that encodes the exact price system (b capped at the budget limit, as `encoding_complete` does) -> driver line"""
     byid = sorted(case.names, key=lambda c: case.rank[c])
@@ -386,10 +431,15 @@ def _capture(job):
 
     mip.Model.optimize = optimize
     try:
-        priceable(inst, prof, alloc, voter_budget=vb, payment_functions=pf, stable=bool(job.get("stable")),
-                  exhaustive=bool(job.get("exhaustive")), max_seconds=int(job.get("max_seconds", 30)))
+        res = priceable(inst, prof, alloc, voter_budget=vb, payment_functions=pf, stable=bool(job.get("stable")),
+                        exhaustive=bool(job.get("exhaustive")), max_seconds=int(job.get("max_seconds", 30)))
     finally:
         mip.Model.optimize = orig
+    if job.get("want_result"):
+        ok = res.status in (mip.OptimizationStatus.OPTIMAL, mip.OptimizationStatus.FEASIBLE)
+        cap["result"] = {"status": res.status.name, "alloc": sorted(p.name for p in res.allocation) if ok else None,
+                         "b": float(res.voter_budget) if ok else None,
+                         "pf": [{p.name: float(v) for p, v in d.items()} for d in res.payment_functions] if ok else None}
     return cap
 
 
